@@ -49,7 +49,7 @@ Verdicts ==
     [one       |-> \A c \in S : PostOne(c),
      eq        |-> \A c \in S : PostEq(c, J),
      comps     |-> \A c \in S : PostComponents(c, V, J),
-     join      |-> \A c \in S : PostJoin(c, V, J),
+     join      |-> \A c \in S : PostJoin(c, V, J) /\ PostJoinClosure(c, V, J),
      conflict  |-> \A c \in S : PostConflict(c, V, J),
      absorbed  |-> \E k \in MustConflict(V, J) : Absorbed(J, k),
      confluent |-> Cardinality({Outcome(c, V) : c \in S}) = 1]
